@@ -60,6 +60,11 @@ def rules(ctx):
     objective.indicators(ctx, "R1")
     # R5: the values the search compares are the true values of the candidates (rule group shared with C09)
     tour_cache_rules(ctx)
+    must_depend(ctx, "R3.unserved-definition", "T1", S("compute_unserved_passengers_at_node"), "ret",
+                [call(N("passengers_of")), call(N("seated_passengers_of")), call(TRAINF + "::capacity"), call(TRAINF + "::seats"), "param:2", "param:3"],
+                "unserved passengers at a node compare demand with the formation's capacity and seats")
+    from .C07 import formation_getters
+    formation_getters(ctx, "R3")
     from .C09 import cycle_update_rules
     cycle_update_rules(ctx)     # the maintenance violation the search compares is maintained truthfully as well
     strict_improver(ctx, "R4", PMIN_IMPROVE)
